@@ -55,6 +55,14 @@ Inv_Fxp ==
         \/ (E.name = "rshift" /\ A1.k = "fxp" /\ A2.k = "pyint" /\ A2.v >= 0 /\ Len(E.res) = 1 /\ E.res[1].v = RA \div (2 ^ A2.v))
         \/ KnownFxp(Active, E, RES, Tr.P)
 
+\* assertion methods of fixed-point values: accepted exactly when the relation holds on the representations
+AssertRel(nm, a, b) == CASE nm = "assert_lt" -> a < b [] nm = "assert_le" -> a <= b [] nm = "assert_gt" -> a > b
+                         [] nm = "assert_ge" -> a >= b [] nm = "assert_eq" -> a = b [] nm = "assert_ne" -> a # b
+Inv_FxpAssert ==
+    (l >= 1 /\ ~Tr.ign /\ ~E.gfalse /\ E.op = "meth" /\ E.name \in {"assert_lt", "assert_le", "assert_gt", "assert_ge", "assert_eq", "assert_ne"}
+        /\ Scalar2 /\ A1.k = "fxp" /\ Representable(A2.k, A2.v, A2.d, RES)) =>
+        ((E.out = "ok") <=> AssertRel(E.name, RA, RB))
+
 \* unary operators and reading a value back
 Inv_FxpUn ==
     (Judged /\ Len(E.args) = 1 /\ Len(E.args[1]) = 1 /\ A1.k = "fxp" /\ ~A1.w /\ Len(E.res) = 1) =>
